@@ -52,6 +52,12 @@ def generate(rnd, tier):
                       "col": rnd.choice([None, rnd.randint(0, 9)]), "width": rnd.choice([None, None, 1, 2, 3, 6]), "block": rnd.random() < 0.5}
             steps.append(st)
         cases.append({"op": "gridseq", "target": {"buf": ggrid(3, 5), "cur": [rnd.randint(0, 4), rnd.randint(0, 6)]}, "steps": steps})
+    # composition through draw: a ColumnWidget draws the renderings of its widgets column by column, one below the other
+    from harness.gen.trees import gen_column
+    from harness.props.common import with_cc as pure_cc
+    for _ in range(800 if tier == "quick" else 10000):
+        c = gen_column(rnd); c["widths"] = c["widths"][:1]
+        cases.append(pure_cc(c))
     return cases
 
 
@@ -59,7 +65,38 @@ def with_cc(case): return case
 compare = plain_compare
 
 
+def column_oracle(case, o, w):
+    """each widget's own rendering (a fresh equal widget rendered at the column's width) appears at its place - column start, below the widgets before it -
+    and nothing else is drawn: columns start right of everything drawn so far, so nothing overlaps"""
+    from harness.impl.render import build
+    cells = {}; height = 0; col_pos = 0; widest = 0
+    for cw, items in case["cols"]:
+        row = 0; maxw = cw if cw is not None else w - col_pos
+        for it in items:
+            x = build(it)
+            try: x.render(maxw)
+            except Exception: return None           # a widget refuses its width: the ColumnWidget raises too (compared with the model)
+            for a, line in enumerate(x.get_lines()):
+                for b, ch in enumerate(line):
+                    if (row + a, col_pos + b) in cells: return "two widgets are drawn over each other at (%d,%d)" % (row + a, col_pos + b)
+                    cells[(row + a, col_pos + b)] = ch; widest = max(widest, col_pos + b + 1)
+            row += len(x.get_lines()); height = max(height, row)
+        col_pos = max(col_pos + (cw or 0), widest) + case["spacing"]
+    if len(o["lines"]) != height: return "the ColumnWidget has %d rows, its tallest column has %d" % (len(o["lines"]), height)
+    for r, line in enumerate(o["lines"]):
+        for c, ch in enumerate(line):
+            exp = cells.get((r, c), " ")
+            if ch != exp: return "cell (%d,%d) shows %r, expected %r" % (r, c, ch, exp)
+    for (r, c), ch in cells.items():
+        if ch != " " and (c >= len(o["lines"][r]) or o["lines"][r][c] != ch): return "character %r of a widget is missing at (%d,%d)" % (ch, r, c)
+    return None
+
+
 def monitor(case, obs):
+    if case["op"] == "column":
+        o = obs[0]
+        if "err" in o: return None
+        return column_oracle(case, o, case["widths"][0])
     if case["op"] == "gridseq":
         # each operation is judged on what the widget showed just before it; the source widgets are left as they were
         tgt = case["target"]
@@ -124,11 +161,18 @@ def monitor(case, obs):
     return None
 
 
-def nontrivial(case, obs): return (obs["steps"][-1] if case["op"] == "gridseq" else obs).get("lines") != case["target"]["buf"]
-def outcome(case, obs): return case["op"] + ("/changed" if nontrivial(case, obs) else "/unchanged")
+def nontrivial(case, obs):
+    if case["op"] == "column": return "err" not in obs[0] and sum(len(i) for _c, i in case["cols"]) >= 2
+    return _nt(case, obs)
+def _nt(case, obs): return (obs["steps"][-1] if case["op"] == "gridseq" else obs).get("lines") != case["target"]["buf"]
+def outcome(case, obs):
+    if case["op"] == "column": return "column/" + ("refused" if "err" in obs[0] else "drawn")
+    return _oc(case, obs)
+def _oc(case, obs): return case["op"] + ("/changed" if nontrivial(case, obs) else "/unchanged")
 
 
 def shrink(case):
+    if case["op"] == "column": return
     if case["op"] == "gridseq":
         for i in range(len(case["steps"])):
             if any(st.get("src_ref") is not None for st in case["steps"]): break
